@@ -703,8 +703,8 @@ def run_cluster(ctx, prop):
     rng = ctx.rng
     maxq = ctx.n(9, 12)
     for it in range(ctx.n(140, 2500)):
-        if ctx.out_of_time():
-            break
+        if ctx.out_of_time() or len(ctx.violations) >= 8:
+            break  # (enough failing inputs: a defective encoder may also make later, larger cases explode)
         jobs, limit = gen_instance(rng, maxq)
         pen = gen_penalties(rng)
         if prop == "C02":
@@ -735,25 +735,30 @@ def run_cluster(ctx, prop):
             ([[(0, 2)], [(0, 1)], [(0, 1)]], 6, {"enc": F(100), "ovl": F(100), "prec": F(100), "opt": F(100), "share": F(0)}),
         ]
     for jobs, limit, pen in fixed:
+        if len(ctx.violations) >= 8:
+            break
         analyse(ctx, prop, jobs, limit, dict(pen), "fixed", 15)
     # long operations: the makespan weights exceed 2^63 (two jobs of length 39 at limit 40: 4 qubits)
     for jobs, limit in [([[(0, 39)], [(1, 20), (0, 19)]], 40), ([[(0, 31)], [(1, 31)], [(0, 15), (1, 16)]], 32), ([[(0, 30), (1, 33)]], 64)]:
+        if len(ctx.violations) >= 8:
+            break
         analyse(ctx, prop, jobs, limit, dict(DEFAULT_PEN), "long-operations", 15)
     # beyond the full-diagonal budget: one variable arbitrary, the others valid (tight penalties make the encoding penalty compete with overlap terms)
     sub2 = ctx.sub_rng("structured")
     tight = [{"enc": F(100), "ovl": F(100), "prec": F(100), "opt": F(50), "share": F(0)}, {"enc": F(100), "ovl": F(100), "prec": F(100), "opt": F(100), "share": F(0)},
              {"enc": F(150), "ovl": F(100), "prec": F(120), "opt": F(50), "share": F(0)}, dict(DEFAULT_PEN)]
-    analyse_structured(ctx, prop, [[(0, 3)], [(0, 1)], [(0, 1)], [(0, 1)]], 10, dict(tight[0]), "structured")
+    if len(ctx.violations) < 8:
+        analyse_structured(ctx, prop, [[(0, 3)], [(0, 1)], [(0, 1)], [(0, 1)]], 10, dict(tight[0]), "structured")
     for it in range(ctx.n(4, 40)):
-        if ctx.out_of_time():
-            break
+        if ctx.out_of_time() or len(ctx.violations) >= 8:
+            break  # (enough failing inputs: a defective encoder may also make later, larger cases explode)
         jobs, limit = gen_structured_instance(sub2)
         analyse_structured(ctx, prop, jobs, limit, dict(tight[it % len(tight)]), "structured")
     # large limits (sparse: only the basis states of feasible schedules)
     sub = ctx.sub_rng("sparse")
     for _ in range(ctx.n(3, 40)):
-        if ctx.out_of_time():
-            break
+        if ctx.out_of_time() or len(ctx.violations) >= 8:
+            break  # (enough failing inputs: a defective encoder may also make later, larger cases explode)
         jobs, limit = gen_sparse_instance(sub)
         analyse_sparse(ctx, prop, jobs, limit, dict(DEFAULT_PEN) if sub.random() < 0.6 else dict(gen_penalties(sub), share=F(0)), "large-limit")
     other = ctx.extra.pop("_other", {})
